@@ -128,7 +128,7 @@ func TestVfC12Edns(t *testing.T) {
 			addr = netip.AddrFrom4([4]byte{127, byte(rapid.IntRange(1, 250).Draw(t, "b")), byte(rapid.IntRange(0, 255).Draw(t, "c")), byte(rapid.IntRange(1, 254).Draw(t, "d"))})
 			known = true
 			a := NewAsker(P.ip, addr.String())
-			ask = func(q []byte) *AskResult { return a.Ask("udp", q, 3*time.Second, 0) }
+			ask = func(q []byte) *AskResult { return a.AskPatient("udp", q, 3*time.Second) }
 			closer = a.Close
 		case "http-header", "fasthttp-header":
 			switch rapid.IntRange(0, 2).Draw(t, "family") {
@@ -145,12 +145,12 @@ func TestVfC12Edns(t *testing.T) {
 			a := NewAsker(P.ip, "")
 			a.Header = map[string]string{"X-Client": addr.String()}
 			kind := map[string]string{"http-header": "http", "fasthttp-header": "fasthttp"}[via]
-			ask = func(q []byte) *AskResult { return a.Ask(kind, q, 3*time.Second, 0) }
+			ask = func(q []byte) *AskResult { return a.AskPatient(kind, q, 3*time.Second) }
 			closer = a.Close
 		case "http-noheader":
 			// header configured but absent: the client address is unknown to the proxy
 			a := NewAsker(P.ip, "")
-			ask = func(q []byte) *AskResult { return a.Ask("http", q, 3*time.Second, 0) }
+			ask = func(q []byte) *AskResult { return a.AskPatient("http", q, 3*time.Second) }
 			closer = a.Close
 		default:
 			c := NewDoHClient("http", "", P.unix, nil)
@@ -427,7 +427,7 @@ func TestVfC12Prefetch(t *testing.T) {
 				start := time.Now()
 				for round, at := range []time.Duration{0, x.second} {
 					time.Sleep(time.Until(start.Add(at)))
-					res := a.Ask(x.via, Query(uint16(caseNo*64+round), x.name, 1, 1, false), 3*time.Second, 0)
+					res := a.AskPatient(x.via, Query(uint16(caseNo*64+round), x.name, 1, 1, false), 3*time.Second)
 					if x.via == "udp" && len(res.Resps) == 0 && res.Err == nil {
 						res = a.Ask(x.via, Query(uint16(caseNo*64+round), x.name, 1, 1, false), 3*time.Second, 0)
 					}
